@@ -435,14 +435,27 @@ def parse_tables(txt):
 
 def corpus_file(job):
     """all torsions of one file through both code paths; returns plain data"""
-    path, tables = job
+    path, tables = job[:2]
+    edited = len(job) > 2 and job[2] == "edited"
     import numpy as np
     import pandas as pd
     from rnapolis.parser import read_3d_structure
     from rnapolis.parser_v2 import parse_cif_atoms, parse_pdb_atoms
     from rnapolis.tertiary import GlycosidicBond, torsion_angle
     from rnapolis.tertiary_v2 import Structure, calculate_torsion_angle
-    out = {"file": os.path.basename(path), "rows": [], "error": None}
+    out = {"file": os.path.basename(path) + ("@atoms-reordered-after-connectivity" if edited else ""), "rows": [], "error": None}
+
+    def xyz_by_name(residue, name):
+        """coordinates of the first atom of that name, read off the residue's table directly"""
+        t = residue.atoms
+        if residue.format == "PDB":
+            col, cc = "name", ("x", "y", "z")
+        else:
+            col, cc = ("auth_atom_id" if "auth_atom_id" in t.columns else "label_atom_id"), ("Cartn_x", "Cartn_y", "Cartn_z")
+        hit = t[t[col] == name]
+        if len(hit) == 0:
+            return None
+        return tuple(float(hit.iloc[0][c]) for c in cc)
     try:
         tmp = None
         if path.endswith(".gz"):
@@ -476,8 +489,17 @@ def corpus_file(job):
             df2.attrs = dict(df.attrs)
             df = df2
         st = Structure(df)
-        table = st.torsion_angles
-        segments = st.connected_residues
+        if edited:
+            # what unifier.py does to the residues of a structure: connectivity is looked at first, then every residue's
+            # atom table is replaced by a re-ordered one; the torsion table is asked for afterwards
+            segments = st.connected_residues
+            for seg in segments:
+                for r in seg:
+                    r.atoms = r.atoms.iloc[::-1]
+            table = st.torsion_angles
+        else:
+            table = st.torsion_angles
+            segments = st.connected_residues
     except Exception as e:  # noqa: BLE001
         out["error"] = "%s: %s" % (type(e).__name__, str(e)[:200])
         return out
@@ -515,9 +537,12 @@ def corpus_file(job):
                     spec = defs[ang]
                 c2 = None
                 if spec is not None and all(0 <= i + o < len(seg) for _, o in spec):
-                    ats = [seg[i + o].find_atom(a) for a, o in spec]
+                    ats = [xyz_by_name(seg[i + o], a) for a, o in spec]
                     if all(a is not None for a in ats):
-                        c2 = [tuple(float(x) for x in a.coordinates) for a in ats]
+                        c2 = ats
+                    found = [seg[i + o].find_atom(a) for a, o in spec]
+                    if [None if a is None else tuple(float(x) for x in a.coordinates) for a in found] != ats:
+                        out.setdefault("find_atom_differs", []).append("%s %s" % (res.residue_name, ang))
                 rec = {"res": "%s.%s%s%s" % (key[0], res.residue_name, key[1], key[2] or ""), "angle": ang,
                        "resname": res.residue_name,
                        "table": tv, "c2": c2, "direct2": None, "v1": None, "c1": None, "chi1": None, "class1": None}
@@ -626,6 +651,9 @@ def run_corpus(ctx, res, tables):
 
 def _run_corpus(ctx, res, tables, files, quick_files):
     jobs = [(f, tables) for f in files]
+    jobs += [(f, tables, "edited") for f in files if os.path.basename(f) in quick_files + ["1ATO.pdb", "q-ugg-5k-salt_400-500ns_frame1065.pdb"]]
+    if ctx.quick and os.path.exists(os.path.join(TESTS, "1ATO.pdb")):
+        jobs.append((os.path.join(TESTS, "1ATO.pdb"), tables, "edited"))
     if len(jobs) >= 4:
         import multiprocessing as mp
         with mp.get_context("fork").Pool(min(16, len(jobs))) as pool:
@@ -641,6 +669,9 @@ def _run_corpus(ctx, res, tables, files, quick_files):
                 res.fail("corr", "C18:corpus:unprocessed", {"file": fn}, o["error"])
             continue
         res.count("corpus:files")
+        if o.get("find_atom_differs"):
+            res.fail("corr", "C18:tertiary_v2.Residue.find_atom:not-the-first-atom-of-that-name", {"family": "corpus", "file": fn, "where": o["find_atom_differs"][:5]},
+                     "find_atom returns other coordinates than the first row of that name in the residue's table")
         # A-form RNA residues, decided by the exact IUPAC values of the backbone torsions of the residue:
         # ribonucleotide with the canonical A-helix backbone (alpha g-, gamma g+, delta C3'-endo, epsilon t/ac-, zeta g-)
         exact = {}
